@@ -187,6 +187,13 @@ func (c13) Generate(r *core.Rng, run int, tier string) *core.History {
 		}
 		return strings.Join(parts, ",")
 	}
+	if r.Bool(.2) {
+		// unquote in the FIELD position of a dot access: the argument's identifier is the field name
+		h.Events = append(h.Events, core.Event{Ev: "define", Name: "mfld", Args: []string{"o1", "f1"}, Val: "unquote(o1).unquote(f1)",
+			Text: "mfld = macro(o1, f1) { quote(unquote(o1).unquote(f1)) }"})
+		fld := core.Pick(r, []string{"k", "j"})
+		h.Events = append(h.Events, core.Event{Ev: "use", Tag: "sitefield", Text: "println(mfld({\"k\": 5, \"j\": 7}, " + fld + "))", Val: "println(({\"k\": 5, \"j\": 7})." + fld + ")"})
+	}
 	nu := 1 + r.Intn(5)
 	for i := 0; i < nu; i++ {
 		if r.Bool(.2) {
@@ -317,8 +324,7 @@ func (c13) Execute(h *core.History) *core.Outcome {
 		if e.Ev == "use" {
 			// (after shrinking) a use whose macros or helpers are not all defined is not a macro use
 			ok := preluded
-			for k := 0; k < 4; k++ {
-				name := fmt.Sprintf("mc%d", k)
+			for _, name := range []string{"mc0", "mc1", "mc2", "mc3", "mfld"} {
 				if strings.Contains(e.Text, name+"(") && !defined[name] {
 					ok = false
 				}
